@@ -155,8 +155,8 @@ save_unwraps = "serde_yaml::to_string(&self).unwrap()" in save_body
 
 o = ["(* GENERATED by tools/translate/c41_schema.py from client/config.rs, server/config.rs, core/config.rs — do not edit *)",
      "From Coq Require Import List String ZArith.", "From OV Require Import C41.Schema.", "Import ListNotations.",
-     "Open Scope string_scope.", "Open Scope Z_scope.", "",
-     "Definition schema : schema := ["]
+     "Local Open Scope string_scope.", "Local Open Scope Z_scope.", "",
+     "Definition cfg_schema : schema := ["]
 rows = []
 for n, fields, _ in allst:
     fl = ";\n     ".join('mk_field %s %s %s %s %s %s' % (coq_str(f[0]), coq_str(f[1]), f[2], "true" if f[3] else "false",
